@@ -2,6 +2,11 @@
 """Print the prompt given to a seeding sub-agent for one property (only the property text, no /verif content)."""
 import json, sys
 pid = sys.argv[1]
+X, Y = (sys.argv[2], sys.argv[3]) if len(sys.argv) > 3 else ("A", "B")
+import glob, os
+used = []
+for m in sorted(glob.glob('/verif/seeded/%s-*/meta.json' % pid)):
+    used.append("  - " + json.load(open(m))["summary"].split(". ")[0][:260])
 for l in open('/verif/properties.jsonl'):
     p = json.loads(l)
     if p['id'] == pid:
@@ -18,7 +23,7 @@ The semantic property to break:
   Quantified over: {p['quantifier']['text']}
   Code anchors: {', '.join(p['anchors'].get('files', []))}
 
-Task: produce TWO different, independent changes (call them A and B; different root cause / different code site) to the project's non-test source code, each of which makes the implementation violate this property, while
+Task: produce TWO different, independent changes (call them {X} and {Y}; different root cause / different code site) to the project's non-test source code, each of which makes the implementation violate this property, while
   (1) the code still compiles (go build ./... in dnsrocks and in dnsrocks/go-cdb-mods),
   (2) the existing test suite still passes exactly as before (see commands below), and
   (3) the violation needs something *specific* to manifest — a particular interleaving, a fault/crash at a particular point, a multi-step sequence of operations, an unusual input (boundary value, rare combination), or two cooperating sites that each look fine alone. NOT a change that ordinary use would expose at once (e.g. not "every answer is wrong"). Think of realistic bugs a maintainer could introduce in a refactor or 'optimisation': an off-by-one at a boundary, a dropped lock or a lock released too early, a check moved after the point it protected, a cache key missing a component, an error path that forgets cleanup, a comparison that ignores one field, an in-place mutation of shared data, etc.
@@ -30,9 +35,12 @@ Environment (sandbox, no network):
   Those non-linking packages DO link and run when you add  -ldflags=-checklinkname=0  (e.g. go test -vet=off -count=1 -ldflags=-checklinkname=0 ./db/ ./dnsserver/ ./fbserver/ ). Use that flag for your demonstrations when they live in those packages. It is a plus (more subtle) if your change also keeps those extra tests passing; say in meta.json whether it does.
   RocksDB (cgo) is installed; go test works offline. Put temporary files under /tmp/seed/{pid}-scratch and delete them at the end.
 
+Changes of this kind that already exist and must NOT be repeated (choose other code sites / other mechanisms):
+{chr(10).join(used) if used else "  (none)"}
+
 Deliverables, written to /tmp/seed/{pid}-out/ :
-  A/patch.diff   — output of `git diff` (non-test source only) for change A, applicable with `git apply` at the repository root
-  A/demo/...     — the demonstration file(s), with the path where each must be placed relative to the repository root noted in meta.json (e.g. dnsrocks/db/zz_demo_test.go), and the exact command to run it
-  A/meta.json    — {{"property": "{pid}", "summary": "...what the change does...", "needs": "...what it takes to manifest...", "demo_files": {{"<file in demo/>": "<destination path relative to repo root>"}}, "demo_cmd": "...", "suite_passes": true, "extra_linkable_tests_pass": true/false, "verified": "what you ran and observed, with and without the patch"}}
-  B/...          — same for change B
-Verify everything yourself before finishing: with the patch — build OK, existing suite passes, demo FAILS; without the patch — demo PASSES. Finally reset the worktree to a clean state. Your final message should be a short summary of A and B (one paragraph each).""")
+  {X}/patch.diff   — output of `git diff` (non-test source only) for change {X}, applicable with `git apply` at the repository root
+  {X}/demo/...     — the demonstration file(s), with the path where each must be placed relative to the repository root noted in meta.json (e.g. dnsrocks/db/zz_demo_test.go), and the exact command to run it
+  {X}/meta.json    — {{"property": "{pid}", "summary": "...what the change does...", "needs": "...what it takes to manifest...", "demo_files": {{"<file in demo/>": "<destination path relative to repo root>"}}, "demo_cmd": "...", "suite_passes": true, "extra_linkable_tests_pass": true/false, "verified": "what you ran and observed, with and without the patch"}}
+  {Y}/...          — same for change {Y}
+Verify everything yourself before finishing: with the patch — build OK, existing suite passes, demo FAILS; without the patch — demo PASSES. Finally reset the worktree to a clean state. Your final message should be a short summary of {X} and {Y} (one paragraph each).""")
